@@ -13,7 +13,8 @@ import (
 )
 
 var hPureUnits = []string{"report-unresolved", "report-quantity", "report-quantity-desc", "report-totals", "register-group-by-food",
-	"balance", "register", "register-old", "csv-database-resolved", "report-element-total"}
+	"balance", "register", "register-old", "csv-database-resolved", "report-element-total",
+	"balance-single-element", "balance-collapse", "balance-single-element-collapse-last"}
 
 func hSameOutput(a, b string) {
 	wa, wb := verifWords(a), verifWords(b)
@@ -24,7 +25,8 @@ func hSameOutput(a, b string) {
 			verifAssert("same-row-order", wa[i] == wb[i])
 		}
 		for i := range na {
-			verifAssert("same-numbers", verifSameFloat(na[i], nb[i]))
+			// what the user sees: the amounts as printed (two decimals)
+			verifAssert("same-numbers", verifSameShown(na[i], nb[i], 2))
 		}
 	}
 }
@@ -38,7 +40,7 @@ func Harness_pure_function() {
 		unit = verifChoose("unit", len(hPureUnits))
 	}
 	verifLabel("unit", hPureUnits[unit])
-	if unit >= 8 {
+	if unit == 8 || unit == 9 {
 		// units that read a recipe book from a stream: numbers are symbolic digit tokens
 		q := func() string {
 			s := verifBytes("num", 1)
@@ -106,6 +108,16 @@ func Harness_pure_function() {
 		case 7:
 			c.UseOldRegReporter = true
 			r = register.NewRegReporter(c, db)
+		case 10:
+			c.SingleElement = shared.HX
+			r = getReporter(c, db)
+		case 11:
+			c.Collapse = true
+			r = getReporter(c, db)
+		case 12:
+			c.SingleElement = shared.HX
+			c.CollapseLast = true
+			r = getReporter(c, db)
 		}
 		hRunReporter(r, days)
 		return s.String()
